@@ -59,6 +59,11 @@ func (a *MajorityStrategy) Compute(snapshots <-chan *asset.Snapshot) <-chan Acti
 				result <- Hold
 			}
 		}
+
+		// One of the sources has ended, consume the others to the end.
+		for _, source := range sources {
+			go helper.Drain(source)
+		}
 	}()
 
 	return result
